@@ -20,71 +20,103 @@ RULE = (
     "two outputs): CSE on vs off vs reference; (a) Python filters: model values, process/control/sensor Jacobians, one prediction and one update with CSE on vs off must "
     "agree (2e-9*abs-scale) and match the mpmath reference; (b) C++: the same definition generated with CSE on and off, "
     "both compiled and run on the same inputs, every printed entry compared (1e-7 relative to max(1,|a|,|b|)), CSE-on "
-    "outputs also against the reference; (c) text-level SSA predicate over every function body of the CSE-on source: "
-    "each `double _tN` declared once, every _tM used only after its declaration in the same body, right-hand sides of "
-    "temporaries mention only state./calibration./control. accessors, dt, literals, libm functions and earlier "
-    "temporaries. The Python back-end is judged by values only (its temporaries are not 'generated code'; their count and "
+    "outputs also against the reference; (c) layout-agnostic single-assignment predicate over the CSE-on source (statements "
+    "split on ; { }; a temporary = a local `double` named underscore-letters-number, qualifiers allowed): declared once, never "
+    "assigned again, and every temporary mentioned in a statement was declared earlier in a visible scope (not before its "
+    "assignment, not another function's temporary). The Python back-end is judged by values only (its temporaries are not 'generated code'; their count and "
     "nesting are read from the compiled blocks for the statistics when the layout is the pinned one, else from sympy.cse). "
     "Non-trivial = the generated code (or sympy.cse on the model) has >=2 temporaries and one references another; "
     "distinct = sha1(model spec)."
 )
-ASSUMPTIONS = c02.ASSUMPTIONS + ["SSA predicate is textual (regex over the generated source layout)"]
+ASSUMPTIONS = c02.ASSUMPTIONS + ["single-assignment predicate is textual: temporaries are recognised by the naming convention underscore-letters-number of local doubles (statement/brace level, independent of whitespace and qualifiers)"]
 BUDGET = {
     "quick": {"shards": 16, "examples": 20, "wall": 120, "cpp_examples": 3},
     "thorough": {"shards": 16, "examples": 3800, "wall": 900, "cpp_examples": 500},
 }
 
-LIBM = {"pow", "sin", "cos", "tan", "tanh", "atan", "exp", "sqrt", "log", "cbrt", "fabs", "sinh", "cosh", "asin",
-        "acos", "atan2", "M_PI", "M_E", "fmin", "fmax", "floor", "ceil", "dt"}
-NUM = re.compile(r"(?<![A-Za-z_0-9.])(?:\d+\.?\d*|\.\d+)(?:[eE][+-]?\d+)?[fFlL]?")
-IDENT = re.compile(r"[A-Za-z_][A-Za-z0-9_]*(?:\.[A-Za-z_][A-Za-z0-9_]*)*")
-TEMP = re.compile(r"\b_t\d+\b")
+TEMPNAME = r"_[A-Za-z][A-Za-z0-9_]*?[0-9]+"  # _t0, _cse12, _tmp3: underscore, letters, a number (any such convention)
+DECL = re.compile(r"^(?:(?:static|const|constexpr|thread_local)\s+)*double\s+(?:const\s+)?(" + TEMPNAME + r")\s*(?:=|\{)\s*(.*?)\}?$", re.S)
+TEMP = re.compile(r"(?<![A-Za-z0-9_.])" + TEMPNAME + r"(?![A-Za-z0-9_])")
+REASSIGN = re.compile(r"^(" + TEMPNAME + r")\s*(?:[-+*/]?=)(?!=)")
+
+
+BRACE_DECL_HEAD = re.compile(r"^(?:(?:static|const|constexpr|thread_local)\s+)*double\s+(?:const\s+)?" + TEMPNAME + r"$")
+
+
+def _statements(source: str):
+    """yields ("open", head), ("close", ""), ("stmt", text); comments removed; independent of whitespace / line layout"""
+    src = re.sub(r"/\*.*?\*/", " ", source, flags=re.S)
+    src = re.sub(r"//[^\n]*", " ", src)
+    cur, init_depth = [], 0
+    for ch in src:
+        if init_depth:  # inside `double _t0{ ... }`
+            cur.append(ch)
+            init_depth += {"{": 1, "}": -1}.get(ch, 0)
+            continue
+        if ch == "{":
+            t = " ".join("".join(cur).split())
+            if BRACE_DECL_HEAD.match(t):
+                cur.append("{")
+                init_depth = 1
+                continue
+            cur = []
+            yield ("open", t)
+        elif ch == "}":
+            t = " ".join("".join(cur).split())
+            cur = []
+            if t:
+                yield ("stmt", t)
+            yield ("close", "")
+        elif ch == ";":
+            t = " ".join("".join(cur).split())
+            cur = []
+            if t:
+                yield ("stmt", t)
+        else:
+            cur.append(ch)
 
 
 def ssa_check(source: str):
-    """-> (list of problems, n_temps_max_per_body, nested)"""
+    """-> (list of problems, max temporaries in one function body, nested).
+    Layout-agnostic single-assignment predicate over the generated C++: a temporary is a local `double` whose name follows
+    the generator's underscore-letters-number convention (whatever the letters; `const` etc. allowed). Within the scopes
+    visible at a statement: a temporary is declared once, never assigned again, and every temporary mentioned anywhere has
+    been declared earlier in a visible scope (so: not before its assignment, and not another function's temporary)."""
     problems, max_temps, nested = [], 0, False
-    body, inside, fname = [], False, ""
-    lines = source.splitlines()
-    for i, line in enumerate(lines):
-        s = line.rstrip()
-        if not inside and s in ("  ) {", "  ) const {"):
-            inside, body = True, []
-            j = i
-            while j > 0 and not re.match(r"^  \S.*\($", lines[j]):
-                j -= 1
-            fname = lines[j].strip()
+    events = list(_statements(source))
+    scopes = [[]]  # stack of lists of declared temporaries
+    counts = [0]
+    heads = ["<file>"]
+    for kind, text in events:
+        if kind == "open":
+            scopes.append([])
+            heads.append(" ".join(text.split())[:80])
             continue
-        if inside and s == "  }":
-            inside = False
-            declared = []
-            for b in body:
-                mdecl = re.match(r"^\s*double (_t\d+) = (.*);\s*$", b)
-                rhs = b
-                if mdecl:
-                    name, rhs = mdecl.group(1), mdecl.group(2)
-                    if name in declared:
-                        problems.append(f"{fname}: {name} assigned twice")
-                    stripped = NUM.sub(" ", rhs)
-                    for tok in IDENT.findall(stripped):
-                        if tok.startswith(("state.", "calibration.", "control.")) or tok in LIBM:
-                            continue
-                        if TEMP.fullmatch(tok) or re.fullmatch(r"M_[A-Z0-9_]+", tok):  # <cmath> constants such as M_PI_4
-                            continue
-                        problems.append(f"{fname}: temporary {name} computed from {tok!r}")
-                    if TEMP.search(rhs):
-                        nested = True
-                for used in TEMP.findall(rhs):
-                    if used not in declared:
-                        problems.append(f"{fname}: {used} used before assignment in `{b.strip()[:80]}`")
-                if mdecl:
-                    declared.append(mdecl.group(1))
-                elif re.match(r"^\s*_t\d+\s*=", b):
-                    problems.append(f"{fname}: re-assignment `{b.strip()[:60]}`")
-            max_temps = max(max_temps, len(declared))
+        if kind == "close":
+            if len(scopes) > 1:
+                max_temps = max(max_temps, len(scopes[-1]))
+                scopes.pop()
+                heads.pop()
             continue
-        if inside:
-            body.append(line)
+        visible = [n for sc in scopes for n in sc]
+        where = next((h for h in reversed(heads) if "(" in h), heads[-1])
+        m = DECL.match(text)
+        rhs = text
+        if m:
+            name, rhs = m.group(1), m.group(2)
+            if name in visible:
+                problems.append(f"{where}: {name} assigned twice")
+            if TEMP.search(rhs):
+                nested = True
+        else:
+            r = REASSIGN.match(text)
+            if r and r.group(1) in visible:
+                problems.append(f"{where}: re-assignment `{text[:60]}`")
+        for used in TEMP.findall(rhs):
+            if used not in visible:
+                problems.append(f"{where}: {used} used before assignment (or not a temporary of this function) in `{text[:80]}`")
+        if m:
+            scopes[-1].append(m.group(1))
     return problems, max_temps, nested
 
 
